@@ -43,6 +43,10 @@ def run(ctx):
         for _ in range(12 if thorough else 3):
             a, b = rnd.sample(range(16), 2)
             cases.append({"kind": "pair+kp", "limbs": [a, b], "k": [rnd.choice(ks), rnd.choice(ks)]})
+        # the same public values with another limb vector (the limbs travel through the inner verifier before they are packed: whatever
+        # that does to them, the width check and the packing are on the supplied limbs)
+        for i in (range(16) if thorough else rnd.sample(range(16), 3)):
+            cases.append({"kind": "limb+kp=V", "limbs": [i], "k": [rnd.choice(ks)]})
         for i in (range(16) if thorough else rnd.sample(range(16), 3)):
             cases.append({"kind": "limb+2^32", "limbs": [i], "k": []})
         for j in range(4):
@@ -58,8 +62,9 @@ def run(ctx):
         # the same binding under the other range-check mechanisms a builder may offer (the shipped build compiles with the commit checker):
         # the limb width checks are requested after Verify, so their delivery depends on the chip's deferred flush
         if inst == "testdata" or thorough:
-            idx = list(range(16)) if thorough else sorted(rnd.sample(range(16), 3))
             for mode in ("commit", "plain"):
+                # under the commit mechanism the sixteen width checks are the last requests the chip collects: every one of them
+                idx = list(range(16)) if (thorough or mode == "commit") else sorted(set(rnd.sample(range(16), 2)) | {0, 15})
                 mc = [{"kind": "honest", "limbs": [], "k": []}] + [{"kind": "limb+kp", "limbs": [i], "k": ["1"]} for i in idx] + \
                      [{"kind": "limb+2^32", "limbs": [idx[0]], "k": []}]
                 for i in range(len(mc)):
